@@ -743,7 +743,7 @@ func (d *Document) createWordFieldTOC(config *TOCConfig, entries []TOCEntry) []i
 	// 添加TOC域结束段落
 	endPara := &Paragraph{
 		Properties: &ParagraphProperties{
-			ParagraphStyle: &ParagraphStyle{Val: "2"},
+			ParagraphStyle: &ParagraphStyle{Val: "12"}, // 目录基础样式（原来引用的样式ID "2" 没有定义）
 			Spacing: &Spacing{
 				Before: "240",
 				After:  "0",
